@@ -515,6 +515,35 @@ func checkC06(c *Case, s *Stats) error {
 		}
 		s.calls(4*len(qs) + len(scans))
 	}
+	// upgrade path (C05 applied to a legacy-loaded trie): re-marshal in the
+	// current format, reload, and compare every answer
+	var st2 *trie.SlimTrie
+	err = guard("Marshal/Unmarshal of a legacy-loaded trie", func() error {
+		b2, e := st.Marshal()
+		if e != nil {
+			return viol("marshal", "Marshal of a %s-loaded trie failed: %v", c.Load, e)
+		}
+		st2 = emptyTrie(c)
+		if e := st2.Unmarshal(b2); e != nil {
+			return viol("unmarshal", "a %s-loaded trie re-marshalled in the current format does not load: %v", c.Load, e)
+		}
+		b3, e := st2.Marshal()
+		if e != nil || !bytes.Equal(b2, b3) {
+			return viol("unstable", "re-marshalling the upgraded trie gives different bytes")
+		}
+		return nil
+	})
+	if err != nil {
+		return err
+	}
+	uq := queries(m.AllKeys, c.Win, c.Extra, false)
+	if len(uq) > 600 {
+		uq = uq[:600]
+	}
+	uo := obsOpt{scans: scansOK(c), stat: true, str: len(m.AllKeys) < 1000}
+	if d := diffObs(observe(st, uq, uo), observe(st2, uq, uo)); d != "" {
+		return viol("roundtrip-differs", "%s-loaded trie vs its re-marshalled and reloaded copy: %s", c.Load, d)
+	}
 	s.done(c, len(m.AllKeys) >= 2 && converted, c.Load)
 	return nil
 }
